@@ -70,12 +70,18 @@ pub fn gen_f64_any(r: &mut Rng) -> f64 {
 /// f64 members of a `Value`: any finite double under float_roundtrip, and under arbitrary_precision (the text is
 /// kept); short literals otherwise
 pub fn gen_f64_value(r: &mut Rng) -> f64 {
-    if cfg!(feature = "fr") || cfg!(feature = "ap") { gen_f64_any(r) } else { gen_f64_short(r) }
+    if cfg!(feature = "fr") || cfg!(feature = "ap") || any_float() { gen_f64_any(r) } else { gen_f64_short(r) }
+}
+/// exploration only (never set by ./check): `SJH_C04_ANYFLOAT=1` lifts the float restriction in every build, to see
+/// what the restriction of the property excludes (docs/C04-NOTES.md)
+fn any_float() -> bool {
+    static ON: std::sync::OnceLock<bool> = std::sync::OnceLock::new();
+    *ON.get_or_init(|| std::env::var_os("SJH_C04_ANYFLOAT").is_some())
 }
 /// f64 fields of typed data: any finite double under float_roundtrip only (typed `f64` is converted by the
 /// configured algorithm also under arbitrary_precision)
 pub fn gen_f64_typed(r: &mut Rng) -> f64 {
-    if cfg!(feature = "fr") { gen_f64_any(r) } else { gen_f64_short(r) }
+    if cfg!(feature = "fr") || any_float() { gen_f64_any(r) } else { gen_f64_short(r) }
 }
 
 // ------------------------------------------------------------------ values
